@@ -336,7 +336,7 @@ def allocator_success_edge(db, cx, rule):
             if not c or c.get("op") not in (">", ">=", "<", "<="):
                 continue
             refs = set(c.get("lrefs", []) + c.get("rrefs", []))
-            if "F:" + C + "StackAllocatorData::storage" in refs and "count" in refs \
+            if "F:" + C + "StackAllocatorData::storage" in refs and f.r["params"][0]["n"] in refs \
                     and "+" in (c.get("l", "") + c.get("r", "")):
                 brs.append(bid)
         if not brs:
@@ -391,12 +391,14 @@ def allocator_success_edge(db, cx, rule):
                 d.append("write to %s" % leaf)
                 continue
             g = False
+            startv = set(e.get("var") for (_b, _i, e) in f.events("def")
+                         if C + "atomic_add" in e.get("calls", []))
             for b2 in f.branch_blocks(lambda cc, _b: cc.get("op") in ("<=", "<")
-                                      and "start" in cc.get("lrefs", [])
+                                      and bool(startv & set(cc.get("lrefs", [])))
                                       and C + "StackAllocator::capacity" in cc.get("rcalls", [])):
                 if f.guarded_by_edge((x, k), b2, f.cond_polarity_edge(b2, True)):
                     g = True
-            if not g or local_refs(ev.get("refs", [])) != {"start"}:
+            if not g or not (local_refs(ev.get("refs", [])) <= startv and local_refs(ev.get("refs", []))):
                 ok = False
                 d.append("size restored unguarded or to a different value (%s)" % ev.get("rhs"))
         cx.ob(rule + "-failure-restores-size", "StackAllocator%s" % tag, ok and len(wr) == 1,
